@@ -21,6 +21,15 @@ class T1Error(Exception):
     pass
 
 
+class T1Unresolved(T1Error):
+    """a qualified name pkg.Name whose package the file does not import (the Go compiler
+    reports `undefined: pkg`)"""
+
+    def __init__(self, file: str, expr: str):
+        super().__init__(f"{file}.go: cannot resolve {expr}: the file does not import that package")
+        self.file, self.expr = file, expr
+
+
 BUILTIN = {"bool": "GBool", "byte": "GByte", "uint8": "(GUint 8)", "uint16": "(GUint 16)",
            "uint32": "(GUint 32)", "uint64": "(GUint 64)", "int8": "(GInt 8)", "int16": "(GInt 16)",
            "int32": "(GInt 32)", "int64": "(GInt 64)"}
@@ -115,6 +124,8 @@ class GoT1:
             path = f.imports.get(alias)
             if path is not None and path in self.files:
                 return self.files[path], e[2]
+            if path is None:
+                raise T1Unresolved(f.name, unparse(e))
         raise T1Error(f"{f.name}.go: cannot resolve {unparse(e)}")
 
     def gty(self, f: GoFile, toks: Sequence[Tok]) -> Tuple[str, Any]:
